@@ -48,6 +48,7 @@ func loadProgram(repo, harness string) (*sym.Program, map[string]*ssaPkg, error)
 		return nil, nil, err
 	}
 	p.InitPkgs["github.com/aukilabs/hagall-common/websocket"] = true
+	p.RepoPrefix = "github.com/aukilabs/hagall/"
 	p.NondetRange["(*github.com/aukilabs/hagall/models.SequentialIDGenerator).New"] = true
 	p.NondetRange["(*github.com/aukilabs/hagall/models.SignedLatency).OnPing"] = true
 	p.NondetRange["(*github.com/aukilabs/hagall-common/websocket.scheduler).HandleFrame"] = true
